@@ -5,7 +5,10 @@ Parts:
       programmatically the way g2e does): pretty() compiles, is a fixpoint, parses sampled inputs to equal
       ASTs, is built from the same constructors, keeps directives / keywords / params / base / decorators,
       railroads() completes with equal widths.  Families: random grammars (clean / risky pools), the layout
-      family (every container around bodies that the printers wrap over several lines), wide random grammars.
+      family (every container around bodies that the printers wrap over several lines), wide random grammars,
+      the header family (`@@keyword ::` lists of every length around the width at which the printer starts a new
+      line, very long / oddly quoted keywords; rule headers with every parameter value type on plain rules, based
+      rules with own / inherited parameters and chains of based rules).
       ANTLR family: random ANTLR grammars (parser rules with literals, rule / token references, parenthesised
       sub-expressions, ~negation of literals / tokens / sets / sub-expressions, ? * + suffixes, labels, alternatives,
       empty alternatives, actions, predicates, rewrites; lexer rules, fragments, tokens{} sections, options) put
@@ -448,11 +451,12 @@ def src_exp(e) -> str:
     raise ValueError(k)
 
 
-def src_param(p) -> str:
+def src_param(p, first=False) -> str:
     if isinstance(p, str):
         if p.isidentifier() and p.isascii():
             return p
-        if all(x.isidentifier() and x.isascii() for x in p.split('::')) and '::' in p:
+        # a path is only read in the first position (`params: +=first_param {',' +=literal}`; first_param: path | literal)
+        if first and all(x.isidentifier() and x.isascii() for x in p.split('::')) and '::' in p:
             return p
         return src_string(p)
     return repr(p)
@@ -479,7 +483,7 @@ def src_grammar(g) -> str:
         for d in r['decorators']:
             out.append('@' + d)
         head = r['name']
-        ps = [src_param(p) for p in r['params']] + [f'{k}={src_param(v)}' for k, v in r['kwparams']]
+        ps = [src_param(p, i == 0) for i, p in enumerate(r['params'])] + [f'{k}={src_param(v)}' for k, v in r['kwparams']]
         if ps:
             head += '[' + ', '.join(ps) + ']'
         if r['base']:
@@ -603,6 +607,11 @@ def sentence(e, rules, rng, depth=0, rich=False) -> str:
         if not r or depth >= 8:
             return ''
         t = sentence(r['exp'], rules, rng, depth + 1, rich and depth < 1)
+        b = rules.get(r.get('base')) if k == 'call' else None
+        if b is not None:
+            # a based rule parses the expression of its base rule (the base's OWN expression, not that of the
+            # base's base: BasedRule.rhs = Sequence[baserule.exp, exp]) and then its own
+            t = cat([sentence(b['exp'], rules, rng, depth + 1, False), t])
         return t.lstrip(NOSP) if k == 'call' else t      # a rule call skips blanks first
     if k == 'dot':
         return NOSP + rng.choice('x9+')
@@ -1085,6 +1094,21 @@ def shrink(spec, origin, inputs, kind, budget=400, detail=None):
                 small = vlib.shrink_string(s, lambda t: bad(spec, [t]))
                 inputs = [small]
                 break
+    # a plain token that the kept inputs spell out cannot be reduced by the structural steps alone ('x' -> 'a' fails
+    # the input 'x'): rename it in the grammar and in the inputs together
+    for r in spec['rules']:
+        for e in list(walk(r['exp'])):
+            if e[0] == 'tok' and e[1] not in ('a', 'b', ',') and str_class(e[1]) == 'plain' and len(e[1]) == 1 \
+                    and not any(x[0] == 'tok' and x[1] == 'a' for rr in spec['rules'] for x in walk(rr['exp'])):
+                def ren(x, old=e[1]):
+                    if x[0] == 'tok':
+                        return ('tok', 'a') if x[1] == old else x
+                    return tuple(ren(y) if isinstance(y, tuple) else [ren(z) for z in y] if isinstance(y, list) else y
+                                 for y in x)
+                cand = dict(spec, rules=[dict(rr, exp=ren(rr['exp'])) for rr in spec['rules']])
+                cins = [s.replace(e[1], 'a') for s in inputs]
+                if bad(cand, cins):
+                    spec, inputs = cand, cins
     return spec, inputs
 
 
@@ -1638,6 +1662,168 @@ def run_layout(chk: Check, prober: Prober):
             nbad += 1
             prober.explain(spec, og, inputs, f)
     chk.sample({'layout grammars': i + n, 'failing (incl. known)': nbad})
+
+
+# ---------------------------------------------------------------------------------------------------
+# header family: what Grammar._pretty / Rule._pretty / the railroad walker print ABOVE and IN FRONT of the rule
+# bodies - the `@@keyword ::` lines (which the printer batches into lines of bounded width) and the rule headers
+# (`name[params, k=v] < base`), over keyword lists of every length around the batching width and over every value
+# type a parameter can have, on plain rules, based rules with their own parameters, based rules that inherit them
+# and chains of based rules.
+
+KW_SPECIAL = ["it's", 'q"r', 'a b', 'end\\', 'é', 'ключ', '日本', 'x\x7f', 'UPPER', 'x9', '_u', 'a-b', 'a\tb', "''", '""',
+              '\\\\', '→', 'if', 'ſ', 'İ']
+KW_ALPHA = 'abcdefghijklmnopqrstuvwxyz'
+
+
+def kw_words(rng, n, lo, hi, prefix=''):
+    """n distinct lower-case words with lengths between lo and hi"""
+    out: list = []
+    tries = 0
+    while len(out) < n and tries < 50 * n + 100:
+        tries += 1
+        w = prefix + ''.join(rng.choice(KW_ALPHA) for _ in range(rng.randint(lo, hi)))
+        if w not in out:
+            out.append(w)
+    return out
+
+
+def kw_lists(rng, quick=False):
+    """(label, keywords): keyword lists that make the printer start new `@@keyword ::` lines at every possible place"""
+    out = []
+    # words of one length, every list size up to a few printed lines: whatever the batching rule is, some size puts
+    # the line break on the first / on the last keyword (in sorted order), some size fills a line exactly
+    L = rng.choice([1, 2, 3, 4, 5, 6, 7, 9, 12])
+    per_line = 72 // (L + 3) + 1
+    pool = kw_words(rng, (3 if quick else 6) * per_line + 2, L, L)
+    for n in range(1, len(pool) + 1):
+        out.append((f'equal{L}', pool[:n]))
+    # ragged lists
+    for _ in range(6 if quick else 40):
+        lo = rng.choice([1, 1, 2, 4])
+        out.append(('ragged', kw_words(rng, rng.randint(5, 45), lo, lo + rng.choice([0, 1, 3, 8, 12]))))
+    # keywords that are as long as a line, or longer: first / in the middle / last in sorted order, alone or two in a row
+    for _ in range(1 if quick else 4):
+        for prefix in ('a', 'm', 'z'):
+            for nlong in (1, 2):
+                short = kw_words(rng, rng.randint(0, 12), 2, 7, rng.choice(['', '', 'b', 'n']))
+                out.append((f'long{nlong}@{prefix}', short + kw_words(rng, nlong, 40, 80, prefix * 2)))
+        out.append(('all-long', kw_words(rng, rng.randint(2, 4), 50, 70)))
+        out.append(('one-long', kw_words(rng, 1, 60, 75)))
+    # keywords whose repr() is not the text between two single quotes (other quote, escapes, wide characters): the
+    # printer sorts and measures the repr
+    for _ in range(4 if quick else 20):
+        ws = rng.sample(KW_SPECIAL, rng.randint(2, 8)) + kw_words(rng, rng.choice([0, 3, 8, 14, 20]), 1, 9)
+        rng.shuffle(ws)
+        out.append(('special', ws))
+    return out
+
+
+def kw_spec(rng, kws):
+    """a grammar that reserves kws: start = an `@name` rule that takes the whole line, so that a text is rejected
+    exactly when it is a keyword"""
+    spec = mini(('pat', r'[^\n]+'), decorators=['name'])
+    spec['keywords'] = list(kws)
+    if rng.random() < 0.3:
+        spec['directives'] = Gen(rng, risky=False, prog=False).directives()
+        # a whitespace / comment directive changes what the @name rule sees: keep the ones that leave words alone
+        spec['directives'] = [(n, v) for n, v in spec['directives'] if n not in ('whitespace', 'comments', 'eol_comments',
+                                                                                'namechars')]
+    return spec
+
+
+# every type a rule parameter can have in TatSu source (name, string, path, int, float, bool, None), incl. falsy ones
+PARAM_VALUES = ['Node', 'q r', 'A::B', "it's", 'Ünï', 7, 0, -3, 1.5, True, False, None]
+HEADER_KINDS = ('plain', 'based-own', 'based-inherit', 'based-chain', 'based-chain-own')
+
+
+def header_spec(rng, kind, params, kwparams, wide=False):
+    """start -> r1, with r1 a plain rule / a rule based on b0 (own parameters, or the ones inherited from b0) / a
+    rule based on b1 which is based on b0"""
+    body = wide_seq(rng, 74, 100) if wide else A
+    spec = mini(body)
+    own = dict(params=list(params), kwparams=list(kwparams))
+    if kind == 'plain':
+        return dict(spec, rules=[spec['rules'][0], dict(spec['rules'][1], **own)])
+    inherit = kind in ('based-inherit', 'based-chain')
+    other = dict(params=[rng.choice(['Base', 'B', 2])] if rng.random() < 0.6 else [],
+                 kwparams=[('w', rng.choice(['x', 3]))] if rng.random() < 0.3 else [])
+    none = dict(params=[], kwparams=[])
+    b0 = {'name': 'b0', 'decorators': [], 'base': None, 'exp': ('tok', 'b'), 'flags': {}, **(own if inherit else other)}
+    r1 = dict(spec['rules'][1], base='b0', **(none if inherit else own))
+    rules = [spec['rules'][0], b0]
+    if kind.startswith('based-chain'):
+        b1 = {'name': 'b1', 'decorators': [], 'base': 'b0', 'exp': ('tok', 'c'), 'flags': {},
+              **(none if inherit else other)}
+        r1['base'] = 'b1'
+        rules.append(b1)
+    if rng.random() < 0.2:
+        r1['decorators'] = [rng.choice(['name', 'nomemo'])]
+    return dict(spec, rules=rules + [r1])
+
+
+def header_cases(rng, quick=False):
+    """(label, spec): rule kinds x parameter tuples (each value type alone, after / before a name, as a keyword
+    parameter; own or inherited)"""
+    def vclass(v):
+        return type(v).__name__ if not isinstance(v, str) else 'str:' + str_class(v)
+    for kind in HEADER_KINDS:
+        for v in PARAM_VALUES:
+            shapes = [([v], []), (['Node', v], []), ([v, 'Node'], []), ([], [('k', v)]), (['Node'], [('k', v)]),
+                      (['Node', v], [('k', 'v'), ('w', v)])]
+            if quick:
+                shapes = rng.sample(shapes, 2)
+            for ps, kws in shapes:
+                yield f'{kind}:{vclass(v)}:{len(ps)}+{len(kws)}', header_spec(rng, kind, ps, kws, wide=rng.random() < 0.1)
+        # several non-name values at once
+        for _ in range(1 if quick else 6):
+            ps = [rng.choice(PARAM_VALUES) for _ in range(rng.randint(2, 5))]
+            kws = [(k, rng.choice(PARAM_VALUES)) for k in rng.sample(['k', 'kind', 'w', 'n_1'], rng.randint(0, 3))]
+            yield f'{kind}:mixed:{len(ps)}+{len(kws)}', header_spec(rng, kind, ps, kws, wide=rng.random() < 0.2)
+
+
+def run_headers(chk: Check, prober: Prober):
+    rng = chk.rng
+    origins = ('text', 'prog', 'json', 'progjson')
+    nbad = ncase = nexplained = 0
+    seen_sigs = set()
+
+    def one(family, label, spec, inputs, i):
+        nonlocal nbad, ncase, nexplained
+        ncase += 1
+        for og in ([origins[i % 4]] if chk.quick else origins[i % 2::2]):
+            f = failure(spec, og, inputs)
+            chk.count(f'{family}.{og}.' + ('ok' if f is None else f[0] if f[0] != 'skip' else 'skip:' + f[1]))
+            chk.count(f'{family}.case.' + label.split(':')[0])
+            chk.case(f'{family}:{og}:' + json.dumps(spec, sort_keys=True, default=str),
+                     nontrivial=(f is None or f[0] != 'skip'))
+            if f is None or f[0] == 'skip':
+                continue
+            nbad += 1
+            # the grammars of this family are minimal by construction: the first failures of a kind are explained /
+            # shrunk like any other, the rest is reported as it is
+            sig = signature(f[0], f[1], og, spec)
+            if sig in seen_sigs:
+                continue
+            seen_sigs.add(sig)
+            nexplained += 1
+            if nexplained <= (4 if chk.quick else 40):
+                prober.explain(spec, og, inputs, f)
+            else:
+                prober.report(chk, f, og, spec, inputs)
+
+    # keyword lists
+    for i, (label, kws) in enumerate(kw_lists(rng, chk.quick)):
+        spec = kw_spec(rng, kws)
+        some = list(kws) if len(kws) <= 12 else rng.sample(list(kws), 8) + sorted(kws, key=repr)[-2:] + sorted(kws, key=repr)[:2]
+        inputs = ['plain', 'not a keyword', ''] + some
+        chk.count('headers.keywords', len(kws))
+        one('keywords', label, spec, inputs, i)
+    # rule headers
+    for i, (label, spec) in enumerate(header_cases(rng, chk.quick)):
+        inputs = sample_inputs(spec, rng, 2, rich=1) + ['a', 'b a', 'b c a', 'c a']
+        one('headers', label, spec, inputs, i)
+    chk.sample({'header grammars': ncase, 'failing (incl. known)': nbad})
 
 
 # ---------------------------------------------------------------------------------------------------
@@ -2457,6 +2643,7 @@ def run_oracle(chk: Check):
             nbad += 1
             prober.explain(spec, og, inputs, f)
     run_layout(chk, prober)
+    run_headers(chk, prober)
     run_antlr(chk)
     chk.obligation('O1:pretty() recompiles, is a fixpoint, parses equally, keeps headers; railroads equal width',
                    'oracle', not any(v['replay'].get('oracle') == 'pretty round trip' for v in chk.violations))
@@ -2738,7 +2925,15 @@ def main():
                 'sequence element, rule body) around bodies that the printers wrap (sequence past 72 columns, choice past '
                 'its budget, a short body holding a wrapped element) and one-line controls at the thresholds, plus random '
                 'grammars from pools of long literals / names; sentences where every repetition runs at least twice and '
-                'patterns are glued to the preceding text (patterns do not skip blanks). Besides equal ASTs on the sampled '
+                'patterns are glued to the preceding text (patterns do not skip blanks). Header family: an @name grammar '
+                'reserving keyword lists - equal-length words at every list size up to 3 (quick) / 6 printed lines, ragged '
+                'lists of 5-45 words, keywords of 40-80 characters first / in the middle / last in sorted order (one or two '
+                'in a row, all long), keywords whose repr uses the other quote / escapes / wide characters - parsed on the '
+                'keywords themselves; rule headers: each parameter value type (name, string, path, quote, non-ASCII, int, 0, '
+                'negative, float, True, False, None) alone / after / before a name / as keyword parameter, and mixed tuples, '
+                'on a plain rule, a based rule with own parameters, one inheriting them, chains b1 < b0 (inherited / own), '
+                'some with @name / @nomemo or a wrapped body, origins rotating. Sentences of a based rule start with a '
+                'sentence of its base rule. Besides equal ASTs on the sampled '
                 'inputs the recompiled model must be built from the same constructors in the same places (Fail = !(), '
                 'pattern . = Dot, nested sequences / choices flattened, g2e Synth placeholders transparent). ANTLR family: '
                 'random ANTLR grammars (1-4 parser rules over literals incl. escapes and double-quoted ones, rule and '
